@@ -107,5 +107,5 @@ def project_image(img, rest_ids=None, idspace=False):
             "zoomDir": [[z["reduction"], z["dataOffset"], z["indexOffset"]] for z in img.get("zoomDir", [])],
             "summary": summary, "dataCount": img.get("dataCount", 0),
             "ctree": {"magic": ct.get("magic", ""), "blockSize": ct.get("blockSize", 0), "keySize": ct.get("keySize", 0), "valSize": ct.get("valSize", 0),
-                      "itemCount": ct.get("itemCount", 0), "chroms": [[chrom_idx(c["key"]), c["id"], c["size"], len(c["key"].encode())] for c in chroms]},
+                      "itemCount": ct.get("itemCount", 0), "maxNodeItems": max([len(n.get("items", [])) for n in ct.get("nodes", [])] + [0]), "chroms": [[chrom_idx(c["key"]), c["id"], c["size"], len(c["key"].encode())] for c in chroms]},
             "index": project_tree(img.get("index"), id2idx), "blocks": blocks_of(img.get("blocks", []), False), "zooms": zooms, "zint": zint[0]}
